@@ -20,6 +20,7 @@ import (
 	"github.com/henrylee2cn/erpc/v6/codec"
 	"github.com/henrylee2cn/erpc/v6/proto/jsonproto"
 	"github.com/henrylee2cn/erpc/v6/proto/pbproto"
+	"github.com/henrylee2cn/erpc/v6/utils"
 )
 
 // ---- statistics are written from many goroutines ----
@@ -49,6 +50,7 @@ type kv struct{ k, v []byte }
 type opRec struct {
 	tag   string
 	kind  int
+	path  string // service method the operation was sent to (function or struct-controller route)
 	idx   int    // unique within (epoch, endpoint); calls only
 	args  []byte // the args region
 	meta  []kv   // all meta pairs sent, "tag" first
@@ -99,7 +101,9 @@ func (v *view) String() string {
 type seenRec struct {
 	mtype byte
 	v1    view
-	v2    *view // the same fields read again later (after the park / after the reply was written)
+	v2    *view  // the same fields read again later (after the park / after the reply was written)
+	vMid  *view  // read again through the ctx inside the handler, after the overlap yield (CopyMeta)
+	peeks string // anything PeekMeta returned after the yield that is not this request's own value
 }
 
 // ---- endpoints ----
@@ -149,14 +153,15 @@ type world struct {
 	pipe  []byte
 	kind  string // FrameLenPrefix kind
 
-	srv, cli           erpc.Peer
-	pairs              [2]*Pair
-	eps                [2][2]*endpoint
-	bySess             map[erpc.CtxSession]*endpoint
-	callPath, pushPath string
-	workers            []*worker
-	stallRng           [2]*rand.Rand
-	schedRng           *rand.Rand
+	srv, cli             erpc.Peer
+	pairs                [2]*Pair
+	eps                  [2][2]*endpoint
+	bySess               map[erpc.CtxSession]*endpoint
+	callPaths, pushPaths [2]string // [0] function handler, [1] struct controller method
+	arrivals             [8]int64  // invocations per handler route, for the overlap yield
+	workers              []*worker
+	stallRng             [2]*rand.Rand
+	schedRng             *rand.Rand
 
 	epoch       int32
 	aborted     int32
@@ -204,17 +209,35 @@ func newWorld(cfg *RunCfg, st *Stats, cw *CaseWriter, gz *GzipRecorder, ci int, 
 	}
 	w.srv = erpc.NewPeer(erpc.PeerConfig{DefaultBodyCodec: "plain"}, viewPlugin{})
 	w.cli = erpc.NewPeer(erpc.PeerConfig{DefaultBodyCodec: "plain"}, viewPlugin{})
+	// every handler exists twice: as a function (RouteCallFunc / RoutePushFunc) and as a method
+	// of a struct controller that embeds the context (RouteCall / RoutePush); the controller
+	// object is pooled per method by the router
 	var cb, cs, pb, ps string
+	var ctlCall, ctlPush []string
 	for _, p := range []erpc.Peer{w.srv, w.cli} {
 		cb = p.RouteCallFunc(CB)
 		cs = p.RouteCallFunc(CS)
 		pb = p.RoutePushFunc(PB)
 		ps = p.RoutePushFunc(PS)
+		ctlCall = p.RouteCall(new(Ctl))
+		ctlPush = p.RoutePush(new(PCtl))
+	}
+	pick := func(paths []string, method string) string {
+		for _, x := range paths {
+			l := strings.ToLower(x)
+			if strings.HasSuffix(l, "/"+method) || strings.HasSuffix(l, "."+method) || strings.HasSuffix(l, "_"+method) {
+				return x
+			}
+		}
+		Must(fmt.Errorf("struct controller route for method %q not found in %v", method, paths))
+		return ""
 	}
 	if spec.body == "bytes" {
-		w.callPath, w.pushPath = cb, pb
+		w.callPaths = [2]string{cb, pick(ctlCall, "b")}
+		w.pushPaths = [2]string{pb, pick(ctlPush, "b")}
 	} else {
-		w.callPath, w.pushPath = cs, ps
+		w.callPaths = [2]string{cs, pick(ctlCall, "s")}
+		w.pushPaths = [2]string{ps, pick(ctlPush, "s")}
 	}
 	for p := 0; p < 2; p++ {
 		nameA, nameB := fmt.Sprintf("c01-%d-%d-A", ci, p), fmt.Sprintf("c01-%d-%d-B", ci, p)
@@ -431,49 +454,118 @@ func onHandle(ctx inCtx, mtype byte, arg []byte) (*world, *seenRec) {
 	return w, rec
 }
 
-func callCommon(ctx erpc.CallCtx, arg []byte) {
-	w, rec := onHandle(ctx, 1, arg)
+// overlapYield makes invocations of one handler route overlap: about every third invocation
+// waits (at most ~300us) until a LATER invocation of the same route has started, and only
+// then goes on using its context.
+func (w *world) overlapYield(route int, tag string) {
+	my := atomic.AddInt64(&w.arrivals[route], 1)
+	if w.hash(tag, "#yield")%3 != 0 {
+		runtime.Gosched()
+		return
+	}
+	for i := 0; i < 15; i++ {
+		if atomic.LoadInt64(&w.arrivals[route]) > my {
+			runtime.Gosched()
+			return
+		}
+		time.Sleep(20 * time.Microsecond)
+	}
+}
+
+// midView reads the request again THROUGH THE CONTEXT after the yield (CopyMeta and PeekMeta
+// this time) and notes every PeekMeta answer that is not the first view's value.
+func midView(rec *seenRec, ctx inCtx, copyMeta func() *utils.Args, peekMeta func(string) []byte, arg []byte) {
+	cm := copyMeta()
+	v := view{seq: ctx.Seq(), method: ctx.ServiceMethod(), body: append([]byte(nil), arg...), meta: metaOf(cm.VisitAll)}
+	utils.ReleaseArgs(cm)
+	rec.vMid = &v
+	var bad []string
+	for _, p := range rec.v1.meta {
+		if got := peekMeta(string(p.k)); !bytes.Equal(got, peek(rec.v1.meta, string(p.k))) {
+			bad = append(bad, fmt.Sprintf("%s=%q", p.k, clip(string(got), 60)))
+		}
+	}
+	rec.peeks = strings.Join(bad, " ")
+}
+
+// callCommon is the body of every CALL handler. get() yields the handler's context each
+// time it is used: for a struct controller that is the embedded field, read afresh.
+func callCommon(route int, get func() erpc.CallCtx, arg func() []byte) {
+	w, rec := onHandle(get(), 1, arg())
 	if rec == nil {
 		return
 	}
-	// the reply is a transform of what THIS handler saw
-	ctx.SetMeta("rtag", string(peek(rec.v1.meta, "tag")))
-	ctx.SetMeta("r0", string(reOf(peek(rec.v1.meta, "t0"))))
-	w.pending.Store(interface{}(ctx), rec)
+	// reply metadata written BEFORE the yield, from what this handler saw on entry
+	get().SetMeta("rtag", string(peek(rec.v1.meta, "tag")))
+	w.pending.Store(interface{}(get()), rec)
+	w.overlapYield(route, string(peek(rec.v1.meta, "tag")))
+	// ... and AFTER the yield, from what the context says now
+	c := get()
+	midView(rec, c, c.CopyMeta, c.PeekMeta, arg())
+	c.SetMeta("r0", string(reOf(c.PeekMeta("t0"))))
 }
 
 // CB is the CALL handler for the []byte body kind.
 func CB(ctx erpc.CallCtx, arg *[]byte) ([]byte, *erpc.Status) {
-	callCommon(ctx, *arg)
+	callCommon(0, func() erpc.CallCtx { return ctx }, func() []byte { return *arg })
 	return reOf(*arg), nil
 }
 
 // CS is the CALL handler for the string body kinds.
 func CS(ctx erpc.CallCtx, arg *string) (string, *erpc.Status) {
-	callCommon(ctx, []byte(*arg))
+	callCommon(1, func() erpc.CallCtx { return ctx }, func() []byte { return []byte(*arg) })
 	return string(reOf([]byte(*arg))), nil
 }
 
-func pushCommon(ctx erpc.PushCtx, read func() []byte) {
-	w, rec := onHandle(ctx, 3, read())
+// Ctl is the struct controller with the same two CALL handlers as methods; the router hands
+// every invocation a pooled controller whose embedded context it sets.
+type Ctl struct{ erpc.CallCtx }
+
+func (c *Ctl) B(arg *[]byte) ([]byte, *erpc.Status) {
+	callCommon(2, func() erpc.CallCtx { return c.CallCtx }, func() []byte { return *arg })
+	return reOf(*arg), nil
+}
+
+func (c *Ctl) S(arg *string) (string, *erpc.Status) {
+	callCommon(3, func() erpc.CallCtx { return c.CallCtx }, func() []byte { return []byte(*arg) })
+	return string(reOf([]byte(*arg))), nil
+}
+
+func pushCommon(route int, get func() erpc.PushCtx, read func() []byte) {
+	w, rec := onHandle(get(), 3, read())
 	if rec == nil {
 		return
 	}
-	runtime.Gosched()
-	v2 := takeView(ctx, read())
+	w.overlapYield(route, string(peek(rec.v1.meta, "tag")))
+	c := get()
+	midView(rec, c, c.CopyMeta, c.PeekMeta, read())
+	v2 := takeView(get(), read())
 	rec.v2 = &v2
 	atomic.AddInt64(&w.handlersOut, 1)
 }
 
 // PB is the PUSH handler for the []byte body kind.
 func PB(ctx erpc.PushCtx, arg *[]byte) *erpc.Status {
-	pushCommon(ctx, func() []byte { return *arg })
+	pushCommon(4, func() erpc.PushCtx { return ctx }, func() []byte { return *arg })
 	return nil
 }
 
 // PS is the PUSH handler for the string body kinds.
 func PS(ctx erpc.PushCtx, arg *string) *erpc.Status {
-	pushCommon(ctx, func() []byte { return []byte(*arg) })
+	pushCommon(5, func() erpc.PushCtx { return ctx }, func() []byte { return []byte(*arg) })
+	return nil
+}
+
+// PCtl is the struct controller with the two PUSH handlers as methods.
+type PCtl struct{ erpc.PushCtx }
+
+func (p *PCtl) B(arg *[]byte) *erpc.Status {
+	pushCommon(6, func() erpc.PushCtx { return p.PushCtx }, func() []byte { return *arg })
+	return nil
+}
+
+func (p *PCtl) S(arg *string) *erpc.Status {
+	pushCommon(7, func() erpc.PushCtx { return p.PushCtx }, func() []byte { return []byte(*arg) })
 	return nil
 }
 
@@ -549,6 +641,13 @@ func (wk *worker) runEpoch(nops int) {
 			op.kind = kCall
 		}
 		op.args, op.meta = w.expected(tag)
+		via := int(w.hash(tag, "#route") % 2) // function handler or struct controller
+		if op.kind == kPush {
+			op.path = w.pushPaths[via]
+		} else {
+			op.path = w.callPaths[via]
+		}
+		w.count([]string{"route:func", "route:struct"}[via])
 		settings := make([]erpc.MessageSetting, 0, 6)
 		settings = append(settings, erpc.WithBodyCodec(w.codec))
 		for _, p := range op.meta {
@@ -583,7 +682,7 @@ func (wk *worker) runEpoch(nops int) {
 		w.countLens(op)
 		switch op.kind {
 		case kPush:
-			stat := ep.sess.Push(w.pushPath, argVal, settings...)
+			stat := ep.sess.Push(op.path, argVal, settings...)
 			atomic.AddInt64(&w.evals, 1)
 			if !stat.OK() {
 				if !w.isAborted() {
@@ -593,10 +692,10 @@ func (wk *worker) runEpoch(nops int) {
 			op.done = true
 			w.checkSent(op)
 		case kCall:
-			cmd := ep.sess.Call(w.callPath, argVal, res, settings...)
+			cmd := ep.sess.Call(op.path, argVal, res, settings...)
 			w.complete(ep, op, cmd, res)
 		case kAsync:
-			cmd := ep.sess.AsyncCall(w.callPath, argVal, res, ch, settings...)
+			cmd := ep.sess.AsyncCall(op.path, argVal, res, ch, settings...)
 			asyncs = append(asyncs, pendingAsync{op, cmd, res})
 		}
 	}
